@@ -25,10 +25,12 @@ STR_NONE_VALUES = {""}
 
 def coerce(cls: Type[T], data: Any) -> T:
     if cls is NoneType:
-        if data is None or (isinstance(data, str) and data in STR_NONE_VALUES):
-            return None  # type: ignore
-        else:
-            raise bad_type(data, cls)
+        try:
+            if data is None or (isinstance(data, str) and data in STR_NONE_VALUES):
+                return None  # type: ignore
+        except TypeError:  # str subclass which is not hashable
+            pass
+        raise bad_type(data, cls)
     elif isinstance(data, cls):
         return data
     elif cls is bool:
@@ -48,7 +50,10 @@ def coerce(cls: Type[T], data: Any) -> T:
             raise bad_type(data, cls)
     elif cls is str:
         if isinstance(data, (int, float)) and not isinstance(data, bool):
-            return str(data)  # type: ignore
+            try:
+                return str(data)  # type: ignore
+            except ValueError:  # int too large for decimal conversion
+                raise bad_type(data, cls)
         else:
             raise bad_type(data, cls)
     else:
